@@ -557,6 +557,12 @@ int main(int argc, char **argv)
 			}
 			/* LZMA chunk */
 			size_t hdr = control >= 0xC0 ? 6 : 5;
+			if (control < 0xC0 && need_props) {
+				reason = R2_PROPS_NEEDED; rec[17] = ST_ERROR; rec[18] = reason;
+				for (int i = 0; i < NREC; i++) put64(&chunks, rec[i]);
+				nchunks++;
+				break;
+			}
 			if (n - ip < 5) { status = ST_NEED_MORE; for (int i = 0; i < NREC; i++) put64(&chunks, rec[i]); nchunks++; break; }
 			size_t us = ((((size_t)control & 0x1F) << 16) | ((size_t)in[ip + 1] << 8) | in[ip + 2]) + 1;
 			size_t cs = (((size_t)in[ip + 3] << 8) | in[ip + 4]) + 1;
@@ -574,11 +580,6 @@ int main(int argc, char **argv)
 				}
 				model_set_props(&d.m, lc, lp, pb);
 				need_props = 0;
-			} else if (need_props) {
-				reason = R2_PROPS_NEEDED; rec[17] = ST_ERROR; rec[18] = reason;
-				for (int i = 0; i < NREC; i++) put64(&chunks, rec[i]);
-				nchunks++;
-				break;
 			} else if (control >= 0xA0) {
 				model_reset_state(&d.m);
 			}
